@@ -76,7 +76,7 @@ def check(ctx: Ctx) -> None:
                f"format_constraint_evaluation({expr!r}) gives {outs}; an absent or empty expression counts as fulfilled without message",
                file=FILE, function="format_constraint_evaluation")
     # leaves: default message for unfulfilled constraints without message, single key expression
-    for fulfilled, msg in ((True, None), (False, None), (False, "own message")):
+    for fulfilled, msg in ((True, None), (False, None), (False, "own message"), (False, " "), (False, "")):
         for is_async in (False, True):
             def run(ch, fulfilled=fulfilled, msg=msg, is_async=is_async):
                 h = Harness(model, ch, fc={"901": (fulfilled, msg)}, async_keys=("901",) if is_async else ())
@@ -97,7 +97,7 @@ def check(ctx: Ctx) -> None:
     # bounded: pure format constraint expressions, every truth assignment, keys deliberately not in ascending order
     exprs = ["[901]", "[902] U [901]", "[902] O [901]", "[902] X [901]", "[902] U ([901] O [903])", "[903] O [901] U [902]",
              "[901] X [902] O [903]", "([902] X [901]) U [903]", "[901] U [901] O [902]", "[903] X [903]", "[902]∧[901]∨[903]",
-             "[901] ⊻ [902] u [903]", "(([903] O [902]) U [901]) X [902]"]
+             "[901] ⊻ [902] u [903]", "(([903] O [902]) U [901]) X [902]", "[901] X [902] X [903]", "[901]x([902]X[903])X[901]"]
     if ctx.tier == "thorough":
         keys = ("903", "901", "902")
         for ops in itertools.product(("U", "O", "X"), repeat=2):
@@ -132,4 +132,7 @@ def check(ctx: Ctx) -> None:
     from ..purity import check_models_and_transformers
 
     ctx.soft(lambda: check_models_and_transformers(ctx, "C08.state", "format constraint evaluation must not depend on earlier evaluations"))
+    from .c12 import shipped_rule
+
+    shipped_rule(ctx, "C08.shipped", ("fc",))
     ctx.assume("precedence of the re-parse is the documented one (C01); parse functions are summarised by the reference parser")
